@@ -136,7 +136,7 @@ Plan parse_plan(const std::string &text) {
             ir.kind = kv.str("kind", "nal"); ir.seed = kv.u64("seed", 1);
             p.inrep.push_back(ir);
         } else if (kv.op == "restart") {
-            p.restart.push_back(kv.u64("t"));
+            p.restart.push_back(Plan::Restart{kv.u64("t"), kv.str("who", "talker") == "listener"});
         } else if (kv.op == "stall") {
             p.stall.push_back(Stall{kv.u64("t"), (int)kv.u64("node"), kv.u64("dur")});
         }
@@ -149,8 +149,8 @@ struct RunState {
     Plan plan;
     World *w = nullptr;
     int listener = -1, talker = 0;
-    std::vector<std::string> talker_argv;
-    int restarts = 0;
+    std::vector<std::string> talker_argv, listener_argv;
+    int restarts = 0, talker_restarts = 0, listener_restarts = 0;
     bool listener_started = false;  // reached its first recv/poll
     // C19 bookkeeping
     std::vector<CanRec> pending_cargo;                   // frames read by the talker since its last sendto
@@ -338,6 +338,7 @@ static void setup_nodes(RunState &rs) {
         rs.talker = w.add_node("talker", "acf-can-talker", PICK(acf_can_talker_main), ta, false);
         rs.talker_argv = ta;
         rs.listener = w.add_node("listener", "acf-can-listener", PICK(acf_can_listener_main), la, true);
+        rs.listener_argv = la;
     } else if (p.scen == "cvf") {
         w.add_node("talker", "cvf-talker", PICK(cvf_talker_main), V({"-i", "eth0", "-d", kMacStream, "-m", mtt.c_str()}), false);
         rs.listener = w.add_node("listener", "cvf-listener", PICK(cvf_listener_main), V({"-i", "eth0", "-d", kMacStream}), true);
@@ -626,29 +627,44 @@ void exec_plan(const std::string &text, bool verbose) {
             }
         });
     }
-    // crash and restart of the talker process (tunnel): the old process vanishes with everything it had read but not sent and with
-    // the frames queued on its CAN socket; the new one starts from a fresh process image (the other build variant's copy of the program:
-    // its file-scope statics have never been touched) with the same command line
-    if (p.scen == "tunnel" && p.restart.size() <= 2)
-        for (uint64_t rt : p.restart)
-            w.at(w.t_origin + rt, [&w] {
+    // Crash and restart of the talker or of the listener process (tunnel). The old process vanishes with what it held: frames read but
+    // not sent and frames queued on its CAN socket (talker); datagrams queued on its socket and the unwritten rest of the datagram in
+    // hand (listener). The new process starts from a fresh process image - the other build variant's copy of the program, whose
+    // file-scope statics have never been touched - with the same command line; hence at most one restart per program and run.
+    if (p.scen == "tunnel")
+        for (auto &rst : p.restart) {
+            bool lis = rst.listener;
+            w.at(w.t_origin + rst.t, [&w, lis] {
                 RunState &rs = *g_rs;
-                if (rs.restarts >= 2) return;
-                int old = rs.talker;
+                if (lis ? rs.listener_restarts >= 1 : rs.talker_restarts >= 1) return;
+                int old = lis ? rs.listener : rs.talker;
                 sim::Task *ot = w.tasks.get(w.nodes[old].task);
                 if (ot->state == sim::Task::DONE) return;
                 ot->state = sim::Task::DONE;
                 w.nodes[old].waiting = true;
+                w.nodes[old].in_handler = false;
                 for (auto &e : w.fds) if (e.kind != FdEnt::FREE && e.node == old) e = FdEnt();
-                rs.pending_cargo.clear();
-                bool use_o0 = (rs.restarts % 2 == 0) ? !rs.plan.o0 : rs.plan.o0;
+                bool use_o0 = !rs.plan.o0;
                 int64_t off = w.nodes[old].clock_offset;
-                rs.talker = w.add_node(strf("talker%d", rs.restarts + 2), "acf-can-talker", use_o0 ? O0_acf_can_talker_main : acf_can_talker_main, rs.talker_argv, false);
-                w.nodes[rs.talker].clock_offset = off;
+                int nn;
+                if (lis) {
+                    // what the old listener had received but not yet written is lost with it: the frames it wrote are a prefix of what it received
+                    size_t written = w.bus_log[1].size();
+                    if (rs.expected.size() > written) { rs.expected.resize(written); rs.expected_src.resize(written); }
+                    nn = rs.listener = w.add_node("listener2", "acf-can-listener", use_o0 ? O0_acf_can_listener_main : acf_can_listener_main, rs.listener_argv, true);
+                    rs.listener_restarts++;
+                    w.count("fault.listener_restart");
+                } else {
+                    rs.pending_cargo.clear();
+                    nn = rs.talker = w.add_node("talker2", "acf-can-talker", use_o0 ? O0_acf_can_talker_main : acf_can_talker_main, rs.talker_argv, false);
+                    rs.talker_restarts++;
+                    w.count("fault.talker_restart");
+                }
+                w.nodes[nn].clock_offset = off;
                 rs.restarts++;
-                w.count("fault.talker_restart");
-                w.log("restart", (uint64_t)old, (uint64_t)rs.talker);
+                w.log("restart", (uint64_t)old, (uint64_t)nn);
             });
+        }
     if (p.quiet_t) w.at(w.t_origin + p.quiet_t, [&w] {
         g_rs->quiet = true;
         w.rxq_cap = 4096;
